@@ -8,7 +8,9 @@
 (* that terminates within the fuel, with the output the semantics give.    *)
 (***************************************************************************)
 EXTENDS Machine, Json, TLCExt, SequencesExt
-CONSTANTS MaxLen, MaxDepth, Fuel
+CONSTANTS MaxLen, MaxDepth, Fuel,
+          Alphabet,     \* the item kinds bodies are built from
+          Names         \* the label names (two names give equal names in different scopes: `{ goto y; y: } { goto y; y: }`)
 
 I32(n) == [k |-> "lit", t |-> "i32", v |-> FromNat(n, 32)]
 N == [k |-> "var", x |-> "n"]
@@ -17,22 +19,23 @@ Cond == [op |-> ">=", l |-> N, r |-> I32(2)]
 Pr(p) == [k |-> "P", e |-> [k |-> "bin", op |-> "+", l |-> [k |-> "bin", op |-> "*", l |-> N, r |-> I32(100)], r |-> I32(p)]]
 Inc == [k |-> "S", x |-> "n", e |-> [k |-> "bin", op |-> "+", l |-> N, r |-> I32(1)]]
 Kinds == {"O", "IO", "EO", "EIO", "C", "IG", "EG", "EIG", "G", "L", "LP", "P", "INC"}
-Mk(k, p) == CASE k \in {"IO", "EIO"} -> [k |-> k, c |-> Cond, n |-> ""]
-              [] k \in {"IG", "EIG"} -> [k |-> k, c |-> Cond, n |-> "y"]
-              [] k \in {"G", "EG", "L"} -> [k |-> k, n |-> "y"]
+Named == {"IG", "EIG", "G", "EG", "L"}
+Mk(k, p, nm) == CASE k \in {"IO", "EIO"} -> [k |-> k, c |-> Cond, n |-> ""]
+              [] k \in {"IG", "EIG"} -> [k |-> k, c |-> Cond, n |-> nm]
+              [] k \in {"G", "EG", "L"} -> [k |-> k, n |-> nm]
               [] k = "P" -> [Pr(p) EXCEPT !.k = "P"] @@ [n |-> ""]
               [] k = "INC" -> Inc @@ [n |-> ""]
               [] OTHER -> [k |-> k, n |-> ""]
 
-VARIABLES body, kinds, opens, last, done, res, agree
-vars == <<body, kinds, opens, last, done, res, agree>>
-Init == body = <<>> /\ kinds = <<>> /\ opens = <<>> /\ last = "none" /\ done = FALSE /\ res = [status |-> "none"] /\ agree = TRUE
+VARIABLES body, kinds, names, opens, last, done, res, agree
+vars == <<body, kinds, names, opens, last, done, res, agree>>
+Init == body = <<>> /\ kinds = <<>> /\ names = <<>> /\ opens = <<>> /\ last = "none" /\ done = FALSE /\ res = [status |-> "none"] /\ agree = TRUE
 
 Prog(b) == [consts |-> <<>>,
             fns |-> <<[name |-> "main", params |-> <<>>, ret |-> [k |-> "prim", t |-> "u8"],
                        body |-> <<[k |-> "V", x |-> "n", ty |-> [k |-> "prim", t |-> "i32"], e |-> I32(0), n |-> ""]>> \o b,
                        res |-> [k |-> "lit", t |-> "u8", v |-> <<7>>]]>>]
-Grow(k) ==
+Grow(k, nm) ==
     /\ ~done /\ Len(body) < MaxLen
     /\ (k \in ElseKinds) => last = "if"
     /\ (Len(kinds) > 0 /\ kinds[Len(kinds)] = "LP") => k = "C"
@@ -41,7 +44,7 @@ Grow(k) ==
          [] k = "C" -> /\ Len(opens) > 0 /\ opens' = SubSeq(opens, 1, Len(opens) - 1)
                        /\ last' = IF opens[Len(opens)] \in IfKinds THEN "if" ELSE "none"
          [] OTHER -> opens' = opens /\ last' = IF k \in IfKinds THEN "if" ELSE "none"
-    /\ body' = Append(body, Mk(k, Len(body) + 1)) /\ kinds' = Append(kinds, k)
+    /\ body' = Append(body, Mk(k, Len(body) + 1, nm)) /\ kinds' = Append(kinds, k) /\ names' = Append(names, nm)
     /\ UNCHANGED <<done, res, agree>>
 \* the linear scans the machine uses agree with the declarative definitions (FlatBody's label rule)
 ScansAgree(b) == \A i \in 1..Len(b) :
@@ -55,8 +58,8 @@ Finish ==
     \* positions shift by one because of the prelude `var n`; the label rule is position independent
     /\ res' = IF RuleAccepts(body) THEN Run(Prog(body), Fuel) ELSE [status |-> "invalid"]
     /\ agree' = (RuleAccepts(body) => ScansAgree(body))
-    /\ UNCHANGED <<body, kinds, opens, last>>
-Next == (\E k \in Kinds : Grow(k)) \/ Finish
+    /\ UNCHANGED <<body, kinds, names, opens, last>>
+Next == (\E k \in Alphabet \cap Kinds : \E nm \in (IF k \in Named THEN Names ELSE {""}) : Grow(k, nm)) \/ Finish
 Spec == Init /\ [][Next]_vars
 
 \* the machine's own sanity: forward/outward jumps only, output values well formed
@@ -67,7 +70,7 @@ NoUB == done => res.status \notin {"ub", "stuck", "illegal"}
 Monitors == (done /\ res.status \in {"done", "fuel"}) => res.bad = <<>>
 Scans == agree
 EmitCase == (done /\ res.status = "done") =>
-    PrintT(<<"CASE", ToJson([b |-> kinds,
+    PrintT(<<"CASE", ToJson([b |-> kinds, ns |-> names,
                              out |-> [i \in 1..Len(res.out) |-> res.out[i].v],
                              exit |-> res.exit])>>)
 =============================================================================
